@@ -1,2 +1,3 @@
 pub mod client;
 pub mod inproc;
+pub mod proc;
